@@ -509,8 +509,39 @@ def r01g(ck, prog):
                 v["rule"] = "R01g"
 
 
+def r01h(ck, prog):
+    """rows come back under the input name: nothing reachable from the API functions copies a sequence name from one record
+    into another through a length-capped copy (snprintf / strncpy / memcpy with a constant size) - records are moved by
+    pointer, or their name buffer is allocated to fit"""
+    from ..callgraph import CallGraph
+    from . import c05
+    cg = CallGraph(prog)
+    reach = cg.reachable(set(c05.api_functions(prog)) & set(cg.defined))
+    n = 0
+    for F in prog.lib_functions():
+        for c in F.body.calls("snprintf", "strncpy", "memcpy", "strlcpy"):
+            d0 = c.args[0].strip(casts=True)
+            if not (d0.k == "MemberExpr" and d0.d.get("field") == "name" and d0.d.get("rec") == "msa_seq"):
+                continue
+            srcs = [m for a in c.args[1:] for m in a.find("MemberExpr") if m.d.get("field") == "name" and m.d.get("rec") == "msa_seq"]
+            if not srcs:
+                continue
+            cap = c.args[1] if c.callee == "snprintf" else c.args[2] if len(c.args) > 2 else None
+            n += 1
+            where = site(prog, c, "name copy")
+            capped = cap is not None and cap.cv is not None
+            ck.inst("R01h", where, "%s copies a name into another record's name with %s(.., %s): %s from the API functions" % (
+                F.name, c.callee, cap.text() if cap is not None else "?", "reachable" if F.name in reach else "not reachable"), prog.config)
+            if capped and F.name in reach:
+                ck.violation("R01h", "R01h/%s/name-copy" % F.name, where,
+                             "%s copies a sequence name into another record with a fixed cap of %d bytes and is reachable from the API "
+                             "(%s): a longer name comes back cut off" % (F.name, cap.cv, sorted(set(c05.api_functions(prog)) & set(cg.defined))[:3]), prog.config)
+    ck.floor("R01h", n, 1, "record-to-record name copies")
+
+
 def run(ck, progs):
     describe(ck)
+    ck.rule("R01h", "no length-capped copy of a sequence name from one record into another is reachable from the API functions")
     ck.rule("R01g", "path -> gap counts: make_seq's two new-gap vectors never overlap and are int wide, update_gaps only adds sums of their entries (= R10e, R10b)")
     ck.rule("R01f", "the writers emit exactly the columns [0, alnlen) of every row (= R15e; recognised loop shapes only, otherwise no verdict)")
     ck.rule("R01e", "every loop over msa_seq.gaps covers all len+1 slots (row length = len + sum of gaps[0..len])")
@@ -522,6 +553,7 @@ def run(ck, progs):
         ck.attempt(r01e, ck, prog)
         ck.attempt(r01f, ck, prog)
         ck.attempt(r01g, ck, prog)
+        ck.attempt(r01h, ck, prog)
     return ("CFG must-pass-through / precedence for the six pipeline stages of kalign_run and the three of kalign(); "
             "who-may-read/write table for msa_seq.rank over every function; provenance of every store into a row buffer "
             "and every residue print in the functions reachable from the exporters; status gate reachability and "
